@@ -7,6 +7,10 @@ CLAIMS = {
          'text': 'Every clause of the statement is a contract clause on the real bodies of gr_str_to_tag, gr_tag_to_str, zeropad and the script-strip prefix of makeAndInitialize, discharged for all inputs (strings of any length up to the harness bound in exact-size buffers, all 2^32 tags); the inverse and padding clauses are lemmas over those contracts only.',
          'note': 'Trusted: CBMC, the extraction rewrites (casts, min/max template instantiation), assumed libc strlen contract; string length bounded by MAXN=4096 in the harness (function is loop-free). The callers that apply zeropad/script-strip (gr_face_featureval_for_lang, gr_face_find_fref, gr_make_seg) are not under contract beyond the extracted normalisation code itself.'},
 }
+CLAIMS['C11'] = {'category': 'proof', 'design_ref': 'DESIGN.md section 4, C11',
+  'technique': 'CBMC code contracts + loop contracts (dfcc) on extracted C with a lock-step ghost reference decoder',
+  'text': 'The three decode steps, the three validate functions and the counting loop of gr_count_unicode_characters (both the end-delimited and the NUL-terminated form, all three encodings) are proved against a reference decoder written from the Unicode Standard: every read inside the exact-size buffer, count equal to the reference count, error reported exactly when the reference meets an ill-formed sequence first, error pointer inside the buffer, termination. Loops are closed by inductive loop contracts (buffer length symbolic).',
+  'note': 'Not decided: the encoding-equivalence of whole segments (needs the whole shaper; only the decoding half is proved here and in C12). Known finding (not repaired): UTF-8/UTF-32 encoded surrogate code points are accepted as well-formed (strict units, KNOWN-FINDING lines). Trusted: CBMC, extraction rewrites (iterator operators mapped onto the extracted operator bodies), harness bound MAXN on the buffer length (256 quick / 4096 thorough).'}
 NOT_APPLICABLE = {p: PENDING for p in ['C01','C02','C03','C04','C05','C06','C07','C11','C12','C13','C14','C16','C17','C18','C19','C20']}
 NOT_APPLICABLE.update({
  'C08': 'history independence quantifies over all API histories; as a contract it is a whole-program frame condition over ~10 kLOC of C++ outside CBMC\'s C subset; the provable pieces (empty frames of the face-reading lookups) are reported under C01/C13/C18',
